@@ -256,6 +256,36 @@ PROPS["C17"] = {
 }
 
 
+PROPS["C11"] = {
+    "module": "PropC11",
+    "theorems": ["C11_call_transparent", "C11_history_transparent", "C11_keys_cover_all_arguments", "C11_declarations_pinned"],
+    "runs": [{"level": "memo", "args_quick": ["--histories", "40"], "args_thorough": ["--histories", "2000"]}, CD_RUN],
+    "search": {"level": "memo", "args": ["--histories", "400"]},
+    "rule": "a pool of 60 (input, settings) pairs built from 10 texts in various encodings: each text with default settings, another chaos "
+            "threshold, another language threshold, other window parameters, an exclude filter, and a prefix of itself (so that decoded "
+            "chunks are shared while one setting differs); cold-cache reference per pair; 40 random histories of 20-60 calls from the pool "
+            "on initially flushed caches, one in three with > 2300 distinct filler chunks pushed through the 2048-entry caches in the middle "
+            "(eviction); every call must equal its cold reference; plus the memoised mess_ratio / coherence_ratio against their uncached "
+            "bodies on 300 texts under alternating thresholds",
+    "assumptions": ["the memoised functions are deterministic (C03)", "the expansion shape of cached_proc_macro 0.25.0 is read from its source, pinned by version"],
+    "trusted": [],
+}
+
+PROPS["C12"] = {
+    "module": "PropC12",
+    "theorems": ["C12_safety", "C12_invariant", "C12_progress", "C12_done_when_no_work"],
+    "runs": [{"level": "threads", "args_quick": ["--rounds", "12"], "args_thorough": ["--rounds", "400"]}],
+    "search": {"level": "threads", "args": ["--rounds", "80"]},
+    "rule": "12 rounds: caches flushed, then 2 / 3 / 8 / 16 / 64 threads released together by a barrier, each running 3-4 detections "
+            "(even rounds: all threads the SAME input -- maximal contention on the same missing cache entries; odd rounds: overlapping "
+            "inputs from a pool of 48 (input, settings) pairs); every result compared with the serial cold-cache reference; completion "
+            "under a 120 s watchdog; a serial call after each round checks that no poisoned / corrupted state is left",
+    "assumptions": ["OS scheduling, std::sync::Mutex, once_cell::Lazy and the memory model are NOT modelled (partial): the theorem is about the "
+                    "transition system read off the #[cached] expansion; the schedules that actually arise are sampled by the thread herds"],
+    "trusted": [],
+}
+
+
 def _tok(line):
     return line.split(" ")
 
